@@ -25,6 +25,7 @@ type cexprGen struct {
 	r       *hx.Rand
 	intVars []string // Soy variables the statement generator binds to integers / strings (extra leaves)
 	strVars []string
+	loops   []string // variables of the enclosing loops: index($v) / isFirst($v) / isLast($v) may name them
 }
 
 // kinds: 0 int, 1 str, 2 bool, 3 any
@@ -35,6 +36,12 @@ func (g *cexprGen) expr(k, d int) string {
 		}
 		if k == 1 && len(g.strVars) > 0 && g.r.Chance(40) {
 			return "(cvar " + sx(g.r.Pick(g.strVars)) + ")"
+		}
+		if len(g.loops) > 0 && (k == 0 || k == 2) && g.r.Chance(30) {
+			if k == 0 {
+				return "(cloop index " + sx(g.r.Pick(g.loops)) + ")"
+			}
+			return "(cloop " + g.r.Pick([]string{"isFirst", "isLast"}) + " " + sx(g.r.Pick(g.loops)) + ")"
 		}
 		switch k {
 		case 0:
@@ -112,16 +119,22 @@ func (g *cexprGen) expr(k, d int) string {
 }
 
 // the environment of the tie: Soy values (sexp for the model) and the same data as JavaScript source
-const c04ExprEnvSexp = "(env (x61 (vm 2 (x62 (vi 5)) (x6c (vl 3 (vi 10) (vi 20))) (x6e vnull) (x73 (vs x7a7a)))) (x66 (vb 1)) (x6c (vl 4 (vi 3) (vi 4))) (x73 (vs x68692778)) (x78 (vi 4)))"
-const c04ExprScopeSexp = "(scope (x78 x7833) (x73 x733132))"
+const c04ExprEnvSexp = "(env (x61 (vm 2 (x62 (vi 5)) (x6c (vl 3 (vi 10) (vi 20))) (x6e vnull) (x73 (vs x7a7a)))) (x65 (vl 0)) (x66 (vb 1)) (x6c (vl 4 (vi 3) (vi 4))) (x73 (vs x68692778)) (x78 (vi 4)))"
+
+// the expression tie adds two loops in scope: $v (second of two rounds, frame counter 5) and $w (first of three, counter 7)
+// with the renderer's hidden variables v.index / v.lastIndex / w.index / w.lastIndex
+const c04ExprLoopEnvSexp = "(env (x61 (vm 2 (x62 (vi 5)) (x6c (vl 3 (vi 10) (vi 20))) (x6e vnull) (x73 (vs x7a7a)))) (x65 (vl 0)) (x66 (vb 1)) (x6c (vl 4 (vi 3) (vi 4))) (x73 (vs x68692778)) (x78 (vi 4))" +
+	" (x76 (vi 20)) (x762e696e646578 (vi 1)) (x762e6c617374496e646578 (vi 1)) (x77 (vs x7a7a)) (x772e696e646578 (vi 0)) (x772e6c617374496e646578 (vi 2)))"
+const c04ExprScopeSexp = "(scope (x78 x7833) (x73 x733132) (loop x76 5) (loop x77 7))"
 const c04ExprIjSexp = "(ij (vm 5 (x6e (vi 6))))"
-const c04ExprJSEnv = "var opt_data = {a: {b: 5, l: [10, 20], n: null, s: 'zz'}, f: true, l: [3, 4]}; var opt_ijData = {n: 6}; var x3 = 4; var s12 = \"hi'x\";"
+const c04ExprJSEnv = "var opt_data = {a: {b: 5, l: [10, 20], n: null, s: 'zz'}, e: [], f: true, l: [3, 4]}; var opt_ijData = {n: 6}; var x3 = 4; var s12 = \"hi'x\";" +
+	" var v_5 = 20; var vIndex_5 = 1; var vLimit_5 = 2; var w_7 = 'zz'; var wIndex_7 = 0; var wLimit_7 = 3;"
 
 func c04ExprTie(e *env, n int) {
-	g := &cexprGen{r: e.rng}
+	g := &cexprGen{r: e.rng, loops: []string{"v", "w"}}
 	var reqs []string
 	for i := 0; i < n; i++ {
-		reqs = append(reqs, "minijs "+c04ExprIjSexp+" "+c04ExprScopeSexp+" "+c04ExprEnvSexp+" "+g.expr(g.r.Intn(3), 4))
+		reqs = append(reqs, "minijs "+c04ExprIjSexp+" "+c04ExprScopeSexp+" "+c04ExprLoopEnvSexp+" "+g.expr(g.r.Intn(3), 4))
 	}
 	res := e.m.Batch(reqs)
 	type item struct {
